@@ -1172,3 +1172,86 @@ Example C08_tr_put_run : let rb := CLite.VPtr (length GenCFuncs.cglobals + 5) 0 
 Proof. exact TrViOp3.put_run_examples. Qed.
 Local Open Scope N_scope.
 Local Open Scope Z_scope.
+
+(* ---------------------------------------------------------------------------------------------------------------------- *)
+(* vi_case (g~ gu gU) on the C TEXT (coq/TrViOp4.v).  The loop that converts the region text in place: for EVERY text in the block (block
+   length m0, any blocks behind it), every offset o of the pointer and every key cmd, the loop ends with the block holding the bytes in front of o
+   followed by TrViOp4.case_f of the rest: the first byte of every character (found with uc_next on the converted text) is converted when it
+   is ASCII -- tolower for 'u', toupper for 'U', the other case for '~' (<ctype.h> in the C locale), nothing for another key; the stores are
+   checked stores into the block.  Line-wise vi_case: the converted region text (TrViOp4.case_f of TrViOp.op_text) is handed to
+   lbuf_edit(xb, region, r1, r2 + 1); xrow = r2, xoff = lbuf_indents of the NEW buffer at r2; region, pref = "" and post = "\n" are freed;
+   vi_drawfix(r1, r2, r2 - r1 + 1, 0); 16.  (Character-wise vi_case, which goes through the string builder, is not proved on the C text.) *)
+From NV Require TrViOp4.
+Local Close Scope Z_scope.
+Local Close Scope N_scope.
+Theorem C08_tr_vi_case_loop : forall (ext : nat -> list CLite.val -> CLite.mem -> CLite.res (CLite.val * CLite.mem)) (fuel D : nat) (m0 tl : list CLite.block) (cmd : Z)
+         (l0 l1 l2 l3 l4 l6 l7 l8 l11 : CLite.val) (k : nat) (cur : bytes) (o F : nat) (l10 : CLite.val),
+       nonul cur ->
+       length cur - o <= k ->
+       o <= length cur ->
+       k < F ->
+       length cur < fuel ->
+       exists (o' : Z) (l10' : CLite.val),
+         CLite.exec (CLiteExt.callx ext GenCFuncs.cprog fuel (S (S (S D)))) F TrViOp4.vcase_loop
+           {|
+             CLite.locals := l0 :: l1 :: l2 :: l3 :: l4 :: CLite.VInt cmd :: l6 :: l7 :: l8 :: CLite.VPtr (length m0) (Z.of_nat o) :: l10 :: l11 :: nil;
+             CLite.memm := m0 ++ CLite.cstr_block (CLiteProps.zb cur) :: tl
+           |} =
+         CLite.ONormal
+           {|
+             CLite.locals := l0 :: l1 :: l2 :: l3 :: l4 :: CLite.VInt cmd :: l6 :: l7 :: l8 :: CLite.VPtr (length m0) o' :: l10' :: l11 :: nil;
+             CLite.memm := m0 ++ CLite.cstr_block (CLiteProps.zb (firstn o cur ++ TrViOp4.case_f k cmd (skipn o cur))) :: tl
+           |}.
+Proof. exact TrViOp4.vcase_loop_ok. Qed.
+Print Assumptions C08_tr_vi_case_loop.
+
+Theorem C08_tr_vi_case_lines : forall (ext : nat -> list CLite.val -> CLite.mem -> CLite.res (CLite.val * CLite.mem)) (fuel : nat),
+       TrViOp.oracles ext ->
+       forall (lown : nat -> Prop) (D : nat) (m : CLite.mem) (lb bln : nat) (lbs : list nat) (lines : list bytes) (r1 o1 r2 o2 ln cmd xr xo : Z)
+         (u' : CLite.val) (m6 : CLite.mem) (bln' : nat) (lbs' : list nat) (lines' : list bytes) (ud : CLite.val) (m9 : CLite.mem),
+       TrViOp.ed_at m lb bln lbs lines ->
+       (0 <= r1 + 1 <= 2147483647)%Z ->
+       CLiteTac.int_ok r2 ->
+       CLiteTac.int_ok (r2 + 1) ->
+       CLiteTac.int_ok (r2 - r1) ->
+       CLiteTac.int_ok (r2 - r1 + 1) ->
+       TrViOp.region_in lines r1 (TrViOp.op_o1 ln o1) r2 (TrViOp.op_o2 ln o2) ->
+       TrViOp.lnb ln = true ->
+       CLiteProps.cell_at m GenCFuncs.G_xrow xr ->
+       CLiteProps.cell_at m GenCFuncs.G_xoff xo ->
+       CLiteProps.str_at m GenCFuncs.G_lit__0 nil ->
+       CLiteProps.str_at m GenCFuncs.G_lit_0a_1 (10%N :: nil) ->
+       length (TrViOp.op_text lines r1 o1 r2 o2 ln) < fuel ->
+       TrMot.maxlen lines' < fuel ->
+       (forall b : nat, lown b -> b < length m) ->
+       ~ lown GenCFuncs.G_xrow ->
+       ~ lown GenCFuncs.G_xoff ->
+       ext GenCFuncs.X_lbuf_edit (CLite.VPtr lb 0 :: CLite.VPtr (length m) 0 :: CLite.VInt r1 :: CLite.VInt (r2 + 1) :: nil) (TrViOp4.case_mem7 m lines r1 o1 r2 o2 ln cmd) =
+       CLite.Ok (u', m6) ->
+       TrViOp.eframe lown (TrViOp4.case_mem7 m lines r1 o1 r2 o2 ln cmd) m6 ->
+       TrViOp.ed_cur m6 lb bln' lbs' lines' ->
+       let v := MotDefs.lbuf_indents (map MotDefs.chop lines') r2 in
+       ext GenCFuncs.X_vi_drawfix (CLite.VInt r1 :: CLite.VInt r2 :: CLite.VInt (r2 - r1 + 1) :: CLite.VInt 0 :: nil) (TrViOp4.case_mem8 m m6 r1 r2 v) = CLite.Ok (ud, m9) ->
+       CLiteExt.callx ext GenCFuncs.cprog fuel (S (S (S (S D)))) GenCFuncs.F_vi_case (CLite.VInt r1 :: CLite.VInt o1 :: CLite.VInt r2 :: CLite.VInt o2 :: CLite.VInt ln :: CLite.VInt cmd :: nil) m =
+       CLite.Ok (CLite.VInt 16, m9).
+Proof. exact TrViOp4.tr_vi_case_lines. Qed.
+Print Assumptions C08_tr_vi_case_lines.
+
+Example C08_tr_case_run : let run := fun (args : list Z) (xr xo : Z) => TrViOp.op_show (CLiteExt.callx TrViOp.ideal_ext GenCFuncs.cprog 50 8 GenCFuncs.F_vi_case (map CLite.VInt args) (TrViOp.op_mem xr xo)) in
+       run (1%Z :: 0%Z :: 1%Z :: 0%Z :: 1%Z :: 126%Z :: nil) 1%Z 2%Z =
+       Some
+         (CLite.VInt 16, Some (CLite.VInt 1 :: nil), Some (CLite.VInt 0 :: nil),
+          map CLite.VInt (2%Z :: 1%Z :: 2%Z :: 67%Z :: 68%Z :: 69%Z :: 10%Z :: nil) :: map CLite.VInt (3%Z :: 1%Z :: 1%Z :: 1%Z :: 0%Z :: nil) :: nil) /\
+       run (0%Z :: 0%Z :: 1%Z :: 0%Z :: 1%Z :: 85%Z :: nil) 0%Z 0%Z =
+       Some
+         (CLite.VInt 16, Some (CLite.VInt 1 :: nil), Some (CLite.VInt 0 :: nil),
+          map CLite.VInt (2%Z :: 0%Z :: 2%Z :: 65%Z :: 66%Z :: 10%Z :: 67%Z :: 68%Z :: 69%Z :: 10%Z :: nil)
+          :: map CLite.VInt (3%Z :: 0%Z :: 1%Z :: 2%Z :: 0%Z :: nil) :: nil) /\
+       run (2%Z :: 0%Z :: 2%Z :: 0%Z :: 1%Z :: 117%Z :: nil) 2%Z 0%Z =
+       Some
+         (CLite.VInt 16, Some (CLite.VInt 2 :: nil), Some (CLite.VInt 0 :: nil),
+          map CLite.VInt (2%Z :: 2%Z :: 3%Z :: 102%Z :: 10%Z :: nil) :: map CLite.VInt (3%Z :: 2%Z :: 2%Z :: 1%Z :: 0%Z :: nil) :: nil) /\
+       TrViOp4.case_b 126 (97%N :: 195%N :: 169%N :: nil) = 65%N :: 195%N :: 169%N :: nil.
+Proof. exact TrViOp4.case_run_examples. Qed.
+Local Open Scope N_scope.
+Local Open Scope Z_scope.
